@@ -18,17 +18,25 @@ Field(k, o) == IF o.on THEN k :> o.v ELSE <<>>
 
 MinLens == {Off, On(0), On(1), On(2)}
 MaxLens == {Off, On(0), On(1), On(2), On(3)}
-Pats    == {Off} \cup {On(p) : p \in PatIds}
+Pats    == {Off} \cup {On(p) : p \in PatIds \cup HostPatIds}
+Host(pat_) == pat_.on /\ pat_.v \in HostPatIds
 
 Strings == SetToSeq(UNION {[1..n -> CharIds] : n \in 0..MaxStr})
 StrDocs == [i \in DOMAIN Strings |-> JStr(Strings[i])]
+\* documents for the hostile pattern texts: matching and near-miss strings over the wider character set
+HostStrings == << <<"qt", "a", "qt">>, <<"a", "bt", "b">>, <<"a", "b">>, <<"a", "sp">>, <<"a", "nl">>, <<"sp">>, <<"a", "b", "sp", "sp">>,
+                  <<>>, <<"qt", "a">>, <<"a", "bt", "b", "b">>, <<"bt">>, <<"a", "pc", "b">>, <<"bs">>, <<"a", "us", "d1">>, <<"a", "e2">>,
+                  <<"qt", "a", "qt", "nl">> >>
+HostDocs == [i \in DOMAIN HostStrings |-> JStr(HostStrings[i])]
 
 Unit(pos_, pat_, mn, mx) ==
   LET leaf == ("type" :> <<"string">>) @@ Field("minLength", mn) @@ Field("maxLength", mx) @@ Field("pattern", pat_)
-      okv  == {i \in DOMAIN Strings : StrOK(leaf, Strings[i], {}) /\ StrOK(leaf, Strings[i], Devs)}
+      strs == IF Host(pat_) THEN HostStrings ELSE Strings
+      docs == IF Host(pat_) THEN HostDocs ELSE StrDocs
+      okv  == {i \in DOMAIN strs : StrOK(leaf, strs[i], {}) /\ StrOK(leaf, strs[i], Devs)}
       p    == IF pos_ = "optdefault" /\ okv = {} THEN "opt" ELSE pos_
-      dflt == IF okv = {} THEN JNull ELSE StrDocs[CHOOSE i \in okv : \A j \in okv : i <= j]
-  IN PosUnit("C06", p, leaf, StrDocs, dflt)
+      dflt == IF okv = {} THEN JNull ELSE docs[CHOOSE i \in okv : \A j \in okv : i <= j]
+  IN PosUnit("C06", p, leaf, docs, dflt)
 
 u == Unit(pos, pat, lens[1], lens[2])
 Set == lens # <<>>
@@ -48,7 +56,9 @@ DesignOK == Set => LET unit == u IN Agree(unit, {})
 AsIsOK   == Set => LET unit == u IN Agree(unit, Devs)
 
 Init == pos \in Positions /\ pat \in Pats /\ lens = <<>>
-Pick == lens = <<>> /\ lens' \in MinLens \X MaxLens /\ UNCHANGED <<pos, pat>>
+Pick == /\ lens = <<>>
+        /\ lens' \in IF Host(pat) THEN {<<Off, Off>>, <<On(1), On(3)>>} ELSE MinLens \X MaxLens
+        /\ UNCHANGED <<pos, pat>>
 Next == Pick
 Spec == Init /\ [][Next]_vars
 
